@@ -80,6 +80,19 @@ def double_init_class(base):
     return type(base.__name__, (base,), {"__init__": __init__, "__qualname__": base.__qualname__, "__module__": base.__module__})
 
 
+_GHOST = []
+
+
+def _ghost_module():
+    """a module that exists only in this process (code loaded with exec, a plug-in, a notebook cell)"""
+    if not _GHOST:
+        import types
+        m = types.ModuleType("eg_verif_ghost")
+        exec("def gf(e, v=None):\n    return helper(e)\ndef helper(e):\n    return True\ndef lone(x):\n    return x\n", m.__dict__)
+        _GHOST.append(m)
+    return _GHOST[0]
+
+
 def _rules_table():
     from edgegraph.structure import DirectedEdge, UnDirectedEdge
     return {
@@ -931,6 +944,9 @@ class Real:
                     val = (i % 7, val)
             elif spec[0] == "bound":
                 val = self.hook_of(self.pv(spec[1]))
+            elif spec[0] == "ghost":
+                # a function pickled BY VALUE together with its globals (its module cannot be imported by name)
+                val = getattr(_ghost_module(), ["gf", "lone", "helper"][int(spec[1]) % 3])
             elif spec[0] == "byval":
                 val = BYVALUE["Tag"](int(spec[1]))
             elif spec[0] == "big":
